@@ -9,11 +9,14 @@ static std::string handshake(const Hs &h)
 {
 	std::string keyraw; for (int i = 0; i < 16; i++) keyraw += (char)(h.key.empty() ? i : h.key[(size_t)i % h.key.size()] + i);
 	std::string key = codec::base64(keyraw);
-	static const char *protos[] = {"jet", "chat, jet", "jet, chat", "a,jet,b", "jet"};
+	// every offer contains the token "jet"; neighbours of every length (also 3), other case, odd spacing
+	static const char *protos[] = {"jet", "chat, jet", "jet, chat", "a,jet,b", "jet", "jet, sip", "jet,JET", "foo, jet, bar", "sip, jet", "JET,  jet ,xml", "jet,jets,je"};
+	const int NPROTO = 11;
 	static const char *conns[] = {"Upgrade", "keep-alive, Upgrade", "upgrade", "Upgrade, keep-alive"};
 	static const char *upgs[] = {"websocket", "WebSocket", "WEBSOCKET"};
 	std::vector<std::pair<std::string, std::string>> hd = {{"Host", "localhost:11123"}, {"Upgrade", upgs[h.upg % 3]}, {"Connection", conns[h.conn_hdr % 4]},
-	    {"Sec-WebSocket-Key", key}, {"Sec-WebSocket-Version", "13"}, {"Sec-WebSocket-Protocol", protos[h.proto % 5]}};
+	    {"Sec-WebSocket-Key", key}, {"Sec-WebSocket-Version", "13"}, {"Sec-WebSocket-Protocol", protos[h.proto % NPROTO]}};
+	if (h.proto >= NPROTO) hd.push_back({"Sec-WebSocket-Protocol", h.proto % 2 ? "xml" : "wamp, sip"}); // a second header line continues the list
 	if (h.extra & 1) hd.push_back({"Origin", "http://example.com"});
 	if (h.extra & 2) hd.insert(hd.begin() + 1, {"User-Agent", "harness/1.0 (x; y) z"});
 	if (h.extra & 4) hd.push_back({"Sec-WebSocket-Extensions", "permessage-deflate; client_max_window_bits"}); // the daemon runs without compression: must be ignored
@@ -32,7 +35,7 @@ static std::string handshake(const Hs &h)
 static rc::Gen<Hs> hs_gen()
 {
 	return rc::gen::apply([](int o, int c, int e, int p, int ch, int u, std::vector<int> k) { return Hs{o, c, e, p, ch, u, k}; },
-	                      rng(0, 8), rng(0, 3), rng(0, 8), rng(0, 5), rng(0, 4), rng(0, 3), rc::gen::container<std::vector<int>>(4, rng(0, 200)));
+	                      rng(0, 8), rng(0, 3), rng(0, 8), rng(0, 16), rng(0, 4), rng(0, 3), rc::gen::container<std::vector<int>>(4, rng(0, 200)));
 }
 
 static std::string info_of_size(int n, int tag)
